@@ -9,7 +9,7 @@ import hashlib
 
 from nacl.signing import SigningKey, VerifyKey
 
-from ..translate import arith2
+from ..translate import arith2, sigfull
 
 ID_MAGIC = bytes.fromhex('c6b41348')      # pub.ed25519
 SIGN_MAGIC = bytes.fromhex('706e0bc5')    # ton.blockId (c50b6e70 little endian)
@@ -27,25 +27,35 @@ SPEC = dict(
              'In addition the four decision lines of the source are re-translated from check_proof.py on every run (Generated/SigCheck.lean): the '
              'acceptance test `signed_weight * 3 > total_weight * 2` is proved equal to the strict two-thirds test for ALL weights (c12_src_threshold), '
              'the three `if ...: raise` of the signature loop are proved to fire exactly on an unknown id / an id seen before / a failed verification '
-             '(c12_src_loop_tests), and the hand model is proved to decide with exactly these lines in the order of the code (c12_src_model).',
-        level_note='Trusted: Lean kernel (propext, Classical.choice, Quot.sound); Model/Sig.lean as a faithful hand transcription of '
-                   'check_block_signatures (loops, dictionary and set handling: checked by sampled correspondence only, ~3100 scenarios quick / '
-                   '~15000 thorough; its four decision lines: regenerated from the source and proved for all inputs, trusting the translator '
-                   'harness/translate/pyarith.py, which reads `node is None`, `node_id in seen`, `result` as opaque truth values); PyNaCl Ed25519 and '
+             '(c12_src_loop_tests), and the hand model is proved to decide with exactly these lines in the order of the code (c12_src_model). '
+             'Beyond the single lines, the WHOLE functions check_block_signatures and calculate_node_id_short are re-translated from the source '
+             'on every run (Generated/SigFull.lean, translator pyfunc.py: both loops, the dictionary, the set, the three raise, the weight sums, '
+             'the threshold) and Lean proves for ALL inputs that the regenerated function returns exactly when the hand model is true '
+             '(c12_src_function); c12_src_accept_iff / _accept_iff_members / _rejects / _accept_all_valid restate the property for the '
+             'regenerated function itself.',
+        level_note='Trusted: Lean kernel (propext, Classical.choice, Quot.sound); the translator harness/translate/pyfunc.py (+ pyobj.py, '
+                   'pybytes.py, pyarith.py) and the declared reading of the arguments in harness/translate/sigfull.py (ValidatorDescr = '
+                   '.weight natural + .public_key.pubkey, a signature entry = bytes.fromhex(node_id_short) + signature, a dict = association '
+                   'list with last write winning, a set = list), validated against the running library on ~190 Ed25519 scenarios whenever the '
+                   'source or the translator changes; Model/Sig.lean is no longer trusted as a transcription (it is proved equal to the '
+                   'regenerated function) but stays the object of the sampled correspondence (~3100 scenarios quick / ~15000 thorough), which '
+                   'also decides when the source leaves the translatable subset (tie lost); PyNaCl Ed25519 and '
                    'hashlib (the theorems treat verify and SHA-256 as parameters: unforgeability is NOT proved, only that the decision logic '
                    'consults verify with the right key and payload); the Python harness. Validator lists with a repeated key are outside the '
                    'property domain (the reference node refuses such sets); the theorems still cover them (last entry is credited, every entry '
                    'counts in the total) and the harness checks the library against that.',
-        technique='Lean 4 proof (hand model, induction over the signature list) + differential correspondence with the library '
-                  '+ source-regenerated decision lines',
+        technique='Lean 4 proof (induction over the signature list) about a function regenerated from the source on every run '
+                  '(proved equal to the hand model for all inputs) + differential correspondence with the library',
     ),
-    translators=[('check_proof.py check_block_signatures tests->Generated/SigCheck.lean', arith2.regenerator('SigCheck'))],
+    translators=[('check_proof.py check_block_signatures tests->Generated/SigCheck.lean', arith2.regenerator('SigCheck')),
+                 ('check_proof.py check_block_signatures (whole function)->Generated/SigFull.lean', sigfull.regenerate)],
     design_ref='DESIGN.md §6 C12',
     rule='scenario = (validator list with real Ed25519 keys, weights mode, block id, signer subset chosen at/around the 2/3 threshold, one fault kind, '
          'order); fault kinds: none, bit-flipped signature, signature over another block / without magic, foreign signer, foreign signature under a '
          "member's id, repeated entry, insufficient weight padded with repeats, wrong-length signature, empty set, repeated key in the set; "
          'distinct = distinct (keys, weights, signatures, order); non-trivial = at least one validator and one signature',
-    trusted_base=['Model/Sig.lean mirrors check_block_signatures / calculate_node_id_short by hand',
+    trusted_base=['harness/translate/pyfunc.py + sigfull.py: check_block_signatures / calculate_node_id_short regenerated as Lean functions '
+                  '(declared reading of ValidatorDescr / signature dict / BlockIdExt / dict / set); Model/Sig.lean is proved equal to them',
                   'verify (Ed25519) and H (SHA-256) are parameters of every theorem; driver: H = executable SHA-256, verify = table computed with PyNaCl',
                   'PyNaCl (libsodium) Ed25519, hashlib.sha256',
                   'harness/translate/pyarith.py + arith.py/arith2.py (Python comparisons -> Lean) for the c12_src_* theorems'],
@@ -453,6 +463,13 @@ def src_search(ctx, pool):
     found = arith2.search_points(ctx, ['SigCheck'])
     n0 = len(ctx.failures)
     rng = ctx.rng
+    # the whole regenerated function vs the hand model, on small scenarios of every fault kind: differing scenarios first
+    grid = sigfull.validation_scenarios()
+    diff = sigfull.diff_scenarios(ctx, grid)
+    for sc in diff[:40]:
+        check_one(ctx, dict(sc, kind='src-fn/' + sc['kind'], expect=None if sc['kind'].startswith('dupkey-set') else sc['expect']))
+    if len(ctx.failures) > n0:
+        return True
     for pt in (found.get('sigAccept') or [])[:12]:
         s, t = pt['signed'], pt['total']
         if s > t:
